@@ -14,7 +14,7 @@ ID_TWIN = "C15 delegated phase behaves differently from the in-process phase (me
 ID_OWN = ("C15 ObjectSet relays or records an ObjectSetPhase it does not control (status / status.remotePhases), or drops the "
           "controllerOf a controlled phase object reports")
 PARTS = ["agree", "agree-twin", "m_carries", "m_relay", "m_gate", "m_teardown", "m_class", "m_final",
-         "twin-store", "twin-write-order", "twin-sets", "m_own", "m_remotes", "m_relay_ctrlof", "m_handover", "m_phase_teardown", "m_set_revision"]
+         "twin-store", "twin-write-order", "twin-sets", "m_own", "m_remotes", "m_relay_ctrlof", "m_handover", "m_phase_teardown", "m_set_revision", "m_phase_orphan"]
 
 
 def step_sig(run):
